@@ -58,9 +58,12 @@ EPSS = (2.2e-16, 1e-8, 1e-2)
 
 def dense_from_mats(mats, n):
     """theta*I - W M W^T with M recovered from the triangular factors of M^-1."""
-    minv = mats.invMfactors[0] @ mats.invMfactors[1]
-    m = np.linalg.inv(minv)
-    return mats.theta * np.eye(n) - mats.W @ m @ mats.W.T
+    # products with the middle matrix go through the same triangular solves the solver uses
+    # (more accurate than inverting M^-1 when the pairs differ by many orders of magnitude)
+    from lbfgsb.bfgsmats import bmv
+
+    mw = bmv(mats.invMfactors, mats.W.T)  # M W^T, shape (2m, n)
+    return mats.theta * np.eye(n) - mats.W @ mw
 
 
 def dense_bfgs(pairs, n):
